@@ -79,6 +79,11 @@ def run_case(case, rec):
             for step in range(case['len']):
                 installed = [(sp, m.lex[sp].doc['language']) for sp in sorted(m.lex, key=lambda s: m.lex[s].order)]
                 x = r.random()
+                if r.random() < 0.1:
+                    # a later process: the pooled connection is dropped, the next call opens the existing file anew
+                    env.close_pool()
+                    ops.append(['reconnect'])
+                    rec.event('op.reconnect')
                 if x < 0.55 or not installed:
                     name = r.choice(list(files))
                     route = r.choice(['file', 'file', 'memory'])
